@@ -6,14 +6,14 @@ PROP = dict(
     harnesses={"c03_fd_events": dict(sources=["harness/c03_fd_events.cpp"])},
     legs=[
         # 14 hand-written minimal histories x {epoll, select} + 3 differential close-while-enabled / number re-use histories
-        # + 2 wait-failure histories (EINTR, EBADF) x {epoll, select}
-        dict(name="directed", harness="c03_fd_events", flavour="asan", mode="directed", quick=35, thorough=35, scalable=False,
+        # + 2 wait-failure histories (EINTR, EBADF) x {epoll, select} + 3 differential re-initialisation histories
+        dict(name="directed", harness="c03_fd_events", flavour="asan", mode="directed", quick=38, thorough=38, scalable=False,
              args=_WD, case_timeout=120),
         # case 2k = scenario k on epoll, 2k+1 = the same scenario on select; scenario class k%4 limits the destructive actions
-        dict(name="safety", harness="c03_fd_events", flavour="asan", mode="safety", quick=270000, thorough=8000000,
+        dict(name="safety", harness="c03_fd_events", flavour="asan", mode="safety", quick=210000, thorough=6200000,
              args=_WD, case_timeout=120),
         # one case = one order-independent scenario run on epoll and on select in the same process, callbacks compared per pass
-        dict(name="equiv", harness="c03_fd_events", flavour="asan", mode="equiv", quick=120000, thorough=3800000,
+        dict(name="equiv", harness="c03_fd_events", flavour="asan", mode="equiv", quick=90000, thorough=2900000,
              args=_WD, case_timeout=120),
     ],
     rule=("safety: a seeded scenario of 2-5 pipes / AF_UNIX stream socket pairs (4-10 descriptors), 1-3 FdEvents on ~60% of the "
@@ -46,10 +46,15 @@ PROP = dict(
           "(class 3) leaves events ENABLED on descriptors it closes (inside a callback, 1 callback in 6; between passes, 1 in 4) with a "
           "lower descriptor number kept free so the loop's wake-up descriptor never lands on such a number: select's wait fails with "
           "EBADF (the loop disables those events itself), epoll's registration is simply gone; such events must never be called once a "
-          "pass started with their descriptor closed, and isEnabled() of them is not judged. directed: 14 minimal histories x 2 back-ends, plus 3 "
+          "pass started with their descriptor closed, and isEnabled() of them is not judged. Every descriptor gets FD_CLOEXEC or not "
+          "by a per-descriptor coin. Re-initialisation: between passes (1 in 2) and inside callbacks (safety 7% of the actions on any "
+          "other event, equiv 2 in 10 of the actions on owned events of idle descriptors) an event is (2/3: first disabled,) "
+          "initialize()d again - same descriptor with a new mask/mode (2/10), a descriptor without a record (3/10), a descriptor other "
+          "enabled events hold (5/10) - and enabled (2/3); on an enabled event the call must be refused. directed: 14 minimal histories x 2 back-ends, plus 3 "
           "differential histories (close while enabled, disable, re-open the number, enable the same / a sibling / a new event) and 2 "
           "wait-failure histories (EINTR with four enabled non-ready events; EBADF after a callback closed another event's descriptor) "
-          "x 2 back-ends. "
+          "x 2 back-ends, 3 differential re-initialisation histories (E1 re-targeted onto the descriptor E2 is enabled on; E1 "
+          "enabled too; E1 destroyed later from another descriptor's callback). "
           "A case is non-trivial when some pass had at least two descriptors with a due enabled event and a callback changed another "
           "event (enable/disable/destroy/create); distinct = distinct hashes of the executed action script (kinds, target classes, "
           "descriptors, masks, readiness shaping) among those"),
@@ -62,7 +67,14 @@ PROP = dict(
         "events left enabled on a closed descriptor (ebadf scenarios only) are API misuse that both back-ends must survive: the harness keeps "
         "the number from being recycled (a lower number stays free for the loop's wake-up descriptor, the number is never re-opened), does "
         "not judge isEnabled() of such events (select disables them by itself after EBADF, epoll does not) and does not compare the "
-        "back-ends on these scenarios (select delivers nothing in the pass whose wait failed); they may still be disabled or destroyed",
+        "back-ends on these scenarios (select delivers nothing in the pass whose wait failed); they may still be disabled or destroyed. In these scenarios the model demands service itself: an "
+        "event enabled at the start of a pass whose wait did not fail, untouched during the pass, on an open descriptor that poll() "
+        "reported POLLIN/POLLHUP (read) or POLLOUT (write) for, must be called in that pass, and a healthy event must never lose "
+        "isEnabled() (select: also across the EBADF pass)",
+        "initialize() on an event that was initialised before (re-targeting): refused (returns false, nothing changes) while the event is "
+        "enabled - this is what the code does and what the model expects; a one-shot event is only ever re-initialised as one-shot (the "
+        "mode flag is sticky in the implementation); the RUNNING event is never re-initialised from inside its own callback (see "
+        "findings (i): HEAD reads a released record when the running event re-targets itself and deletes its last sibling)",
         "whether a wait really failed with EINTR is inferred: the pass returned although no enabled event was due, no task was queued, the "
         "5 s guard timer did not fire and the signal handler ran; the verdict (no callback) does not depend on it",
         "no descriptor is opened while a pass is in progress (numbers are re-opened between passes only), so a descriptor number is never closed and re-opened between the back-end's "
@@ -121,5 +133,12 @@ PROP = dict(
         "close_between_passes_leaving_events_enabled", "select_pass_with_enabled_event_on_closed_fd",
         "epoll_pass_with_enabled_event_on_closed_fd", "wait_failed_ebadf_with_nonready_enabled_events",
         "select_auto_disabled_event_left_enabled_on_closed_fd", "directed_eintr_cases", "directed_ebadf_cases",
+        # initialize() on an already initialised event; descriptors without close-on-exec; service demanded by the model after EBADF
+        "reinit_in_callback", "reinit_between_passes", "reinit_same_descriptor", "reinit_onto_unwatched_descriptor",
+        "reinit_onto_descriptor_shared_with_enabled_events", "reinit_onto_descriptor_with_one_enabled_holder",
+        "reinit_of_enabled_event", "reinit_releases_old_record", "reinit_then_enabled", "cb_on_reinitialised_event",
+        "directed_reinit_pairs", "desc_without_cloexec", "desc_with_cloexec", "select_ebadf_pass_with_healthy_events",
+        "ebadf_pass_with_healthy_event_on_non_cloexec_descriptor", "ebadf_pass_due_event_deferred_to_next_pass",
+        "liveness_checked_due_events",
     ]},
 )
